@@ -954,6 +954,29 @@ func ruleBody(m *evalModel, r *Report) {
 		}
 	}
 	r.floor("C01.body", "calls of the body helper", n, 5)
+	// the helper evaluates exactly the elements from..len+to of its list, in one left-to-right pass
+	var evs []*ssa.Call
+	for _, b := range m.doFn.Blocks {
+		for _, in := range b.Instrs {
+			if c, ok := in.(*ssa.Call); ok {
+				switch c.Call.StaticCallee() {
+				case m.EVAL, m.evalAst, m.apply, m.macroexpand:
+					evs = append(evs, c)
+				}
+			}
+		}
+	}
+	okAll := len(evs) == 1 && evs[0].Call.StaticCallee() == m.evalAst
+	shape := ""
+	if okAll {
+		lv := listLiteralVal(evs[0].Call.Args[1])
+		if lv != nil {
+			shape = canonVal(m.e, lv)
+		}
+		// parameters by position: p1 = list, p2 = from, p3 = to
+		okAll = shape == "p1.(types.List).Val[p2:len(p1.(types.List).Val)+p3]"
+	}
+	r.check(okAll, "C01.body", m.doFn, "forms evaluated by the body helper", m.doFn.Pos(), "one eval_ast over lst[from : len(lst)+to]: every body form, in order, once", "the helper does not evaluate exactly the forms from `from` to `len+to` in one pass (found "+fmt.Sprint(len(evs))+" evaluating calls, slice "+shape+")")
 	// fn: literal MalFunc with Env = current scope, Params = operand 1, Exp = (do ...Val[2:])
 	reg, ok := m.regions["fn"]
 	if !ok {
@@ -1109,6 +1132,53 @@ func ruleBinds(w *World, r *Report, e *Engine) {
 		} else if loops[0].header.Dominates(b) {
 			after++
 		}
+	}
+	// no success return is reachable from the start of the binding code without passing the surplus test
+	var arity *ssa.BasicBlock
+	for _, b := range fn.Blocks {
+		if blocks[b] || !loops[0].header.Dominates(b) {
+			continue
+		}
+		if iff := blockIf(b); iff != nil {
+			for _, s := range b.Succs {
+				if ret, ok := s.Instrs[len(s.Instrs)-1].(*ssa.Return); ok && len(ret.Results) == 2 && !isNilConst(ret.Results[1]) {
+					arity = b
+				}
+			}
+		}
+	}
+	if arity != nil {
+		// the surplus test starts where the loop is left (normal exit and the break of the & branch meet
+		// there): the outermost block outside the loop on the dominator chain of the error test
+		for d := arity.Idom(); d != nil && !blocks[d] && loops[0].header.Dominates(d); d = d.Idom() {
+			arity = d
+		}
+		var start *ssa.BasicBlock
+		for _, b := range fn.Blocks {
+			for _, in := range b.Instrs {
+				if c, ok := in.(*ssa.Call); ok && c.Call.StaticCallee() != nil && c.Call.StaticCallee().Name() == "GetSlice" && start == nil {
+					start = b
+				}
+			}
+		}
+		bypass := false
+		if start != nil {
+			seen := map[*ssa.BasicBlock]bool{}
+			stack := []*ssa.BasicBlock{start}
+			for len(stack) > 0 {
+				b := stack[len(stack)-1]
+				stack = stack[:len(stack)-1]
+				if seen[b] || b == arity {
+					continue
+				}
+				seen[b] = true
+				if ret, ok := b.Instrs[len(b.Instrs)-1].(*ssa.Return); ok && len(ret.Results) == 2 && isNilConst(resolveRet(ret.Results[1])) {
+					bypass = true
+				}
+				stack = append(stack, b.Succs...)
+			}
+		}
+		r.check(start != nil && !bypass, "C01.binds", fn, "surplus-argument test on every successful binding", fn.Pos(), "no success return bypasses it", "a scope can be returned successfully without the test for left-over arguments having run")
 	}
 	r.check(inLoop >= 1, "C01.binds", fn, "too few arguments", fn.Pos(), "error returned on the positional path when arguments run out", "no error when arguments run out")
 	r.check(after >= 1, "C01.binds", fn, "too many arguments", fn.Pos(), "error returned after the loop when arguments are left over", "no error when arguments are left over")
